@@ -151,14 +151,12 @@ def check_get_response(report):
     lp = loops[0]
     TN = lp.target.id
     r2.instance("private skip")
-    pat = norm_expr(ast.parse("_ANYF_.startswith('_') and _ANYF_ != '__init__.py.j2'", mode="eval").body)
-    ok = False
-    for i, st in enumerate(lp.body):
-        if isinstance(st, ast.If) and any(isinstance(b_, ast.Continue) for b_ in st.body):
-            node, bb = find_match_ast(pat, st.test)
-            if node is st.test and bb["_ANYF_"] == f"{TN}.split('/')[-1]":
-                later = [j for j, s2 in enumerate(lp.body) if any(isinstance(c, ast.Call) and ast.unparse(c.func) == "self._render_template" for c in ast.walk(s2))]
-                ok = bool(later) and all(j > i for j in later)
+    from .common_rules import stmt_guards
+    FNAME = f"{TN}.split('/')[-1]"
+    want = ("OR(" + "; ".join(sorted([f"{FNAME} == '__init__.py.j2'", f"not {FNAME}.startswith('_')"])) + ")", True)
+    fake = ast.FunctionDef(name="_loop", args=ast.arguments(posonlyargs=[], args=[], kwonlyargs=[], kw_defaults=[], defaults=[]), body=lp.body, decorator_list=[])
+    renders = [(g, st) for g, st in stmt_guards(fake) if any(isinstance(c, ast.Call) and ast.unparse(c.func) == "self._render_template" for c in ast.walk(st))]
+    ok = bool(renders) and all(want in g for g, _ in renders)
     r2.check(ok, p, fn.lineno, "underscore-prefixed template skip", "templates whose file name starts with `_` (except __init__.py.j2) must be skipped before rendering")
     r2.instance("dict accumulation")
     of = [n for n in fn.body if isinstance(n, (ast.Assign, ast.AnnAssign)) and n.value is not None and ast.unparse(n.value) in ("OrderedDict()", "{}", "dict()", "collections.OrderedDict()")]
@@ -177,15 +175,22 @@ def check_get_response(report):
              p, fn.lineno, "proto3 optional feature flag", "the response must advertise FEATURE_PROTO3_OPTIONAL on every path to the return")
     # _get_file
     gf = m.func("gapic.generator.generator.Generator._get_file")
-    node, b = find_match("utils.empty(_C_.content) and (not _F_.endswith(('py.typed', '__init__.py')))", gf.node)
+    from ..pymodel import nreturn, decision_leaves
+    e = nreturn(m, gf, keep={"_get_filename", "fix_whitespace", "empty", "File", "render", "get_template"})
     r2.instance("empty files")
-    ok = node is not None
+    r2.need(e is not None, "Generator._get_file", "the function does not reduce to a decision table; the rule cannot judge it")
+    leaves = decision_leaves(e)
+    empties = [(c, v) for c, v in leaves if isinstance(v, ast.Dict) and not v.keys]
+    files = [(c, v) for c, v in leaves if isinstance(v, ast.Dict) and len(v.keys) == 1]
+    ok = len(empties) == 1 and len(files) >= 1 and len(empties) + len(files) == len(leaves)
     if ok:
-        iff = [n for n in ast.walk(gf.node) if isinstance(n, ast.If) and n.test is node]
-        ok = len(iff) == 1 and len(iff[0].body) == 1 and isinstance(iff[0].body[0], ast.Return) and ast.unparse(iff[0].body[0].value) == "{}"
+        conds = empties[0][0]
+        fn_src = ast.unparse(files[0][1].keys[0])
+        ok = any(s_.startswith("empty(") and s_.endswith(".content)") and pol for s_, pol in conds) \
+            and (f"{fn_src}.endswith(('py.typed', '__init__.py'))", False) in conds and len(conds) == 2 \
+            and fn_src.startswith("self._get_filename(")
     r2.check(ok, p, gf.node.lineno, "empty-file rule in _get_file", "empty modules are not emitted, except py.typed and __init__.py")
-    rets = [n for n in ast.walk(gf.node) if isinstance(n, ast.Return) and isinstance(n.value, ast.Dict) and n.value.keys]
-    r2.check(len(rets) == 1 and len(rets[0].value.keys) == 1, p, gf.node.lineno, "return {fn: file}", "one file per render, keyed by its name")
+    r2.check(len(files) >= 1 and all(len(v.keys) == 1 for _, v in files), p, gf.node.lineno, "return {fn: file}", "one file per render, keyed by its name")
     # _render_template: %proto loops api_schema.protos
     r4 = report.rule("C11.4", "%proto templates iterate the target protos only; %service templates the services; services load only for target files", floor=3)
     rt = m.func("gapic.generator.generator.Generator._render_template")
@@ -197,8 +202,10 @@ def check_get_response(report):
     r4.instance("service loop")
     r4.check(len(sl) == 1, rt.module.path, rt.node.lineno, "for service in api_schema.services.values()", "one service package per service")
     ap = m.func("gapic.schema.api.API.protos")
-    rets = [n for n in ast.walk(ap.node) if isinstance(n, ast.Return)]
-    okp = len(rets) == 1 and isinstance(rets[0].value, ast.Call) and "file_to_generate" in ast.unparse(rets[0].value) and "all_protos" in ast.unparse(rets[0].value)
+    from ..pymodel import nreturn as _nret
+    e_ = _nret(m, ap)
+    t_ = ast.unparse(e_) if e_ is not None else ""
+    okp = e_ is not None and ".file_to_generate" in t_ and "self.all_protos.items()" in t_ and ".meta.address.subpackage[:len(self.subpackage_view)] == self.subpackage_view" in t_
     r4.instance("API.protos")
     r4.check(okp, ap.module.path, ap.node.lineno, "API.protos", "API.protos must be all_protos filtered by file_to_generate (and the subpackage view)")
     pb = m.func("gapic.schema.api._ProtoBuilder.__init__")
@@ -320,6 +327,8 @@ def check_naming(report):
              "version and proto package come from the matched root package")
     ge = m.func("gapic.cli.generate.generate")
     node, b = find_match("os.path.commonprefix([_P_.package for _P_ in _R_.proto_file if _P_.name in _R_.file_to_generate]).rstrip('.')", ge.node)
+    if node is None:
+        node, b = find_match("os.path.commonprefix([_P_.package for _P_ in _R_.proto_file if _P_.name in frozenset(_R_.file_to_generate)]).rstrip('.')", ge.node)
     r5.instance("generate() package")
     r5.check(node is not None, ge.module.path, ge.node.lineno, "package = commonprefix(packages of files to generate)",
              "the target package is the common prefix of the packages of the files to generate")
